@@ -89,6 +89,12 @@ def flatten(b, ctx: BitCtx, problems):
         elif k == "alt":
             # lemma: alt(len(x) > 0 ? <bytes(x)> : <>) == <bytes(x)>   (extending by an empty string is a no-op)
             c, a1, a2 = it.a
+            if c.k == "un" and c.a[0] == "bool" and len(a2.a[0]) == 0 and len(a1.a[0]) == 1 and a1.a[0][0].k == "bytes" \
+                    and a1.a[0][0].a[0] == c.a[1]:
+                # lemma: alt(bool(x) ? <bytes(x)> : <>) == <bytes(x)> for a byte string x (falsy iff empty)
+                t = a1.a[0][0].a[0]
+                out.append(("bytes", canon_bytes_key(t), repr(linearize(length(t)))))
+                continue
             if c.k == "op" and c.a[0] in (">", "!=") and is_const(c.a[2], 0) and len(a2.a[0]) == 0 and len(a1.a[0]) == 1 \
                     and a1.a[0][0].k == "bytes" and linearize(c.a[1]).key() == linearize(length(a1.a[0][0].a[0])).key():
                 t = a1.a[0][0].a[0]
